@@ -541,3 +541,204 @@ Qed.
 
 End G.
 End Shift.
+
+(* ================================================================ derivations commute *)
+Section Commute.
+Variable grow : nat -> nat -> nat.
+
+(* every pool index the operation mentions is below n (and its receiver exists) *)
+Definition refs_below (n : nat) (o : op) : Prop :=
+  operand o < n /\ match o with OAppend _ j | OCopyAttr _ _ j _ => j < n | _ => True end.
+
+(* what an operation adds to a state: the error class and the observations of the members it creates *)
+Definition added (st : state) (o : op) : status * list obs :=
+  let st' := fst (step grow true st o) in
+  (snd (step grow true st o),
+   map (fun g => observe (heap_of st') (load (maps_of st') g)) (skipn (length (pool st)) (pool st'))).
+
+Lemma exec_pool_ext fixed h p q o : refs_below (length p) o -> exec grow fixed h (p ++ q) o = exec grow fixed h p o.
+Proof.
+  intros [Hi Hj]. destruct o; cbn [exec operand] in *; rewrite ?nth_error_app1 by lia; reflexivity.
+Qed.
+
+Lemma prefix_of_frame {A} (d : A) : forall h h' : list A,
+  length h <= length h' -> (forall p, p < length h -> nth p h' d = nth p h d) -> exists e, h' = h ++ e.
+Proof.
+  induction h as [|x t IH]; intros h' L F; [exists h'; auto|].
+  destruct h' as [|x' t']; [simpl in L; lia|].
+  pose proof (F 0 ltac:(simpl; lia)) as F0. simpl in F0. subst x'.
+  destruct (IH t' ltac:(simpl in L; lia)) as [e ->].
+  { intros p Hp. apply (F (S p)). simpl; lia. }
+  exists e; auto.
+Qed.
+
+Lemma shs_id e n s : ptr s < n -> shs e n s = s.
+Proof. intros H. unfold shs, shp. apply Nat.ltb_lt in H. rewrite H. destruct s; reflexivity. Qed.
+Lemma sha_id e n a : amap_ok n a -> sha e n a = a.
+Proof.
+  intros H. induction H as [|[k s] t Hs Ht IH]; [reflexivity|].
+  change (sha e n ((k, s) :: t)) with ((k, shs e n s) :: sha e n t). rewrite IH, shs_id; auto.
+Qed.
+Lemma shm_id e n m : mesh_ok n m -> shm e n m = m.
+Proof.
+  intros (A & B & C & D & E & F). unfold shm. rewrite !shs_id, !sha_id; auto. destruct m; reflexivity.
+Qed.
+
+Lemma ins_top e (H : heap) : ins e (length H) H = H ++ e.
+Proof. unfold ins. rewrite firstn_all, skipn_all. rewrite app_nil_r. reflexivity. Qed.
+
+(* which map a committed member ends up with, per dimension *)
+Definition pick (mh : mheap) (o : op) (g0 : gmesh) (m : mesh) (k : kind) : amap :=
+  match map_plan o k with MShare => mget mh (gid g0 k) | MNil => mget mh 0 | MFresh => vget m k end.
+
+Lemma place_get mh pl sh a mh1 id : place mh pl sh a = (mh1, id) -> sh < length mh -> 0 < length mh ->
+  (exists l, mh1 = mh ++ l) /\
+  forall ml, mget (mh1 ++ ml) id = match pl with MShare => mget mh sh | MNil => mget mh 0 | MFresh => a end.
+Proof.
+  intros E Hs H0. destruct pl; injection E as <- <-; unfold mget.
+  - split; [exists []; rewrite app_nil_r; auto|]. intros ml. rewrite app_nth1; auto.
+  - split; [exists [a]; auto|]. intros ml. rewrite <- app_assoc. rewrite app_nth2 by lia. rewrite Nat.sub_diag. reflexivity.
+  - split; [exists []; rewrite app_nil_r; auto|]. intros ml. rewrite app_nth1; auto.
+Qed.
+
+Lemma commit_load mh o g0 m mh' g : commit mh o g0 m = (mh', g) -> 0 < length mh -> (forall k, gid g0 k < length mh) ->
+  (exists l, mh' = mh ++ l) /\
+  forall ml, load (mh' ++ ml) g = mkMesh (topo m) (idx m) (mats m) (pick mh o g0 m K1) (pick mh o g0 m K2) (pick mh o g0 m K3) (pick mh o g0 m K4).
+Proof.
+  unfold commit. intros E H0 G.
+  destruct (place mh (map_plan o K1) (g_v1 g0) (v1 m)) as [mh1 i1] eqn:E1.
+  destruct (place mh1 (map_plan o K2) (g_v2 g0) (v2 m)) as [mh2 i2] eqn:E2.
+  destruct (place mh2 (map_plan o K3) (g_v3 g0) (v3 m)) as [mh3 i3] eqn:E3.
+  destruct (place mh3 (map_plan o K4) (g_v4 g0) (v4 m)) as [mh4 i4] eqn:E4.
+  injection E as <- <-.
+  destruct (place_get _ _ _ _ _ _ E1 (G K1) H0) as ((l1 & ->) & P1).
+  destruct (place_get _ _ _ _ _ _ E2 ltac:(rewrite app_length; pose proof (G K2); simpl in *; lia) ltac:(rewrite app_length; lia)) as ((l2 & ->) & P2).
+  destruct (place_get _ _ _ _ _ _ E3 ltac:(rewrite !app_length; pose proof (G K3); simpl in *; lia) ltac:(rewrite !app_length; lia)) as ((l3 & ->) & P3).
+  destruct (place_get _ _ _ _ _ _ E4 ltac:(rewrite !app_length; pose proof (G K4); simpl in *; lia) ltac:(rewrite !app_length; lia)) as ((l4 & ->) & P4).
+  split; [exists (l1 ++ l2 ++ l3 ++ l4); rewrite <- !app_assoc; reflexivity|].
+  intros ml. unfold load; cbn [g_topo g_idx g_mats g_v1 g_v2 g_v3 g_v4]. unfold pick.
+  cbn [gid vget].
+  pose proof (G K1) as G1. pose proof (G K2) as G2. pose proof (G K3) as G3. pose proof (G K4) as G4. cbn [gid] in *.
+  f_equal.
+  - replace (((((mh ++ l1) ++ l2) ++ l3) ++ l4) ++ ml) with ((mh ++ l1) ++ (l2 ++ l3 ++ l4 ++ ml))
+      by (rewrite <- !app_assoc; reflexivity).
+    rewrite P1. reflexivity.
+  - replace (((((mh ++ l1) ++ l2) ++ l3) ++ l4) ++ ml) with (((mh ++ l1) ++ l2) ++ (l3 ++ l4 ++ ml))
+      by (rewrite <- !app_assoc; reflexivity).
+    rewrite P2. destruct (map_plan o K2); unfold mget; rewrite ?app_nth1 by lia; reflexivity.
+  - replace (((((mh ++ l1) ++ l2) ++ l3) ++ l4) ++ ml) with ((((mh ++ l1) ++ l2) ++ l3) ++ (l4 ++ ml))
+      by (rewrite <- !app_assoc; reflexivity).
+    rewrite P3. destruct (map_plan o K3); unfold mget; rewrite ?app_nth1 by (rewrite ?app_length; lia); reflexivity.
+  - rewrite P4. destruct (map_plan o K4); unfold mget; rewrite ?app_nth1 by (rewrite ?app_length; lia); reflexivity.
+Qed.
+
+Section Pair.
+Variables (e : heap) (n : nat).
+Hypothesis n1 : 1 < n.
+
+(* the same result committed in two tables of maps that agree on the ids the receiver can share *)
+Lemma commit_pair A B o g0 m N0 A' g B' g' :
+  commit A o g0 m = (A', g) -> commit B o g0 (shm e n m) = (B', g') ->
+  0 < N0 -> N0 <= length A -> N0 <= length B -> (forall k, gid g0 k < N0) ->
+  (forall id, id < N0 -> mget B id = mget A id) -> (forall id, id < N0 -> amap_ok n (mget A id)) ->
+  (exists la, A' = A ++ la) /\ (exists lb, B' = B ++ lb) /\
+  forall h' ma mb, n <= length h' ->
+    observe (ins e n h') (load (B' ++ mb) g') = observe h' (load (A' ++ ma) g).
+Proof.
+  intros EA EB H0 LA LB G Agree Ok.
+  destruct (commit_load _ _ _ _ _ _ EA ltac:(lia) ltac:(intros k; specialize (G k); lia)) as (PA & QA).
+  destruct (commit_load _ _ _ _ _ _ EB ltac:(lia) ltac:(intros k; specialize (G k); lia)) as (PB & QB).
+  split; auto. split; auto. intros h' ma mb L.
+  rewrite QA, QB.
+  assert (P : forall k, pick B o g0 (shm e n m) k = sha e n (pick A o g0 m k)).
+  { intros k. unfold pick. destruct (map_plan o k).
+    - rewrite Agree by apply G. symmetry. apply sha_id. apply Ok. apply G.
+    - apply vget_shm.
+    - rewrite Agree by lia. symmetry. apply sha_id. apply Ok. lia. }
+  rewrite !P.
+  change (mkMesh (topo (shm e n m)) (idx (shm e n m)) (mats (shm e n m)) (sha e n (pick A o g0 m K1))
+            (sha e n (pick A o g0 m K2)) (sha e n (pick A o g0 m K3)) (sha e n (pick A o g0 m K4)))
+    with (shm e n (mkMesh (topo m) (idx m) (mats m) (pick A o g0 m K1) (pick A o g0 m K2) (pick A o g0 m K3) (pick A o g0 m K4))).
+  apply observe_ins; auto.
+Qed.
+
+Lemma commit_all_pair o g0 N0 ms : forall A B A' gs B' gs',
+  commit_all A o g0 ms = (A', gs) -> commit_all B o g0 (map (shm e n) ms) = (B', gs') ->
+  0 < N0 -> N0 <= length A -> N0 <= length B -> (forall k, gid g0 k < N0) ->
+  (forall id, id < N0 -> mget B id = mget A id) -> (forall id, id < N0 -> amap_ok n (mget A id)) ->
+  (exists la, A' = A ++ la) /\ (exists lb, B' = B ++ lb) /\
+  forall h' ma mb, n <= length h' ->
+    map (fun x => observe (ins e n h') (load (B' ++ mb) x)) gs' = map (fun x => observe h' (load (A' ++ ma) x)) gs.
+Proof.
+  induction ms as [|m r IH]; cbn [commit_all map]; intros A B A' gs B' gs' EA EB H0 LA LB G Agree Ok.
+  - injection EA as <- <-. injection EB as <- <-.
+    split; [exists []; rewrite app_nil_r; auto|]. split; [exists []; rewrite app_nil_r; auto|]. reflexivity.
+  - destruct (commit A o g0 m) as [A1 g] eqn:E1. destruct (commit_all A1 o g0 r) as [A2 gr] eqn:E2.
+    destruct (commit B o g0 (shm e n m)) as [B1 g'] eqn:F1. destruct (commit_all B1 o g0 (map (shm e n) r)) as [B2 gr'] eqn:F2.
+    injection EA as <- <-. injection EB as <- <-.
+    destruct (commit_pair _ _ _ _ _ _ _ _ _ _ E1 F1 H0 LA LB G Agree Ok) as ((la & ->) & (lb & ->) & O1).
+    destruct (IH _ _ _ _ _ _ E2 F2 H0 ltac:(rewrite app_length; lia) ltac:(rewrite app_length; lia) G) as ((la2 & ->) & (lb2 & ->) & O2).
+    { intros id Hid. unfold mget. rewrite !app_nth1 by lia. apply Agree; auto. }
+    { intros id Hid. unfold mget. rewrite app_nth1 by lia. apply Ok; auto. }
+    split; [exists (la ++ la2); rewrite app_assoc; auto|]. split; [exists (lb ++ lb2); rewrite app_assoc; auto|].
+    intros h' ma mb L. cbn [map]. f_equal.
+    + rewrite <- (app_assoc (B ++ lb)), <- (app_assoc (A ++ la)). apply O1; auto.
+    + apply O2; auto.
+Qed.
+End Pair.
+
+(* HEADLINE: what o1 adds (error class, observations of the meshes it creates) is the same whether or not another
+   operation o2 ran first *)
+Theorem added_after_step st o2 o1 :
+  inv st -> refs_below (length (pool st)) o1 ->
+  added (fst (step grow true st o2)) o1 = added st o1.
+Proof.
+  intros Hi Hr.
+  destruct (step_facts grow st o2 Hi) as (Hi2 & F & (ml & Hml) & l & Hl).
+  set (s2 := fst (step grow true st o2)) in *.
+  destruct Hi as (H1 & H0 & Hm & Hp). destruct F as [FL FN].
+  destruct (prefix_of_frame [] _ _ FL FN) as [e He].
+  set (n := length (heap_of st)) in *.
+  set (pl := map (load (maps_of st)) (pool st)).
+  assert (Hpl : pool_ok n pl).
+  { unfold pool_ok, pl. rewrite Forall_map. eapply Forall_impl; [|exact Hp]. intros g Hg. eapply load_ok; eauto. }
+  assert (X : exec grow true (heap_of s2) (map (load (maps_of s2)) (pool s2)) o1 = shr e n (exec grow true (heap_of st) pl o1)).
+  { rewrite Hl, map_app. rewrite exec_pool_ext by (rewrite map_length; exact Hr).
+    replace (map (load (maps_of s2)) (pool st)) with (map (shm e n) pl).
+    - rewrite He. rewrite <- (ins_top e (heap_of st)). apply exec_ins; auto; unfold n; lia.
+    - unfold pl. rewrite map_map. apply map_ext_in. intros g Hg.
+      eapply Forall_forall in Hp; eauto. rewrite Hml. rewrite (load_app _ _ _ _ _ Hp (le_n _)).
+      apply shm_id. eapply load_ok; eauto. }
+  destruct Hr as [Hop _].
+  assert (G0 : nth (operand o1) (pool s2) nilg = nth (operand o1) (pool st) nilg) by (rewrite Hl; apply app_nth1; auto).
+  set (g0 := nth (operand o1) (pool st) nilg) in *.
+  assert (Gok : gmesh_ok n (length (maps_of st)) g0).
+  { unfold g0. eapply Forall_forall; [exact Hp|]. apply nth_In; auto. }
+  assert (Gid : forall k, gid g0 k < length (maps_of st)).
+  { destruct Gok as (_ & _ & A & B & C & D). intros []; simpl; auto. }
+  assert (Agree : forall id, id < length (maps_of st) -> mget (maps_of s2) id = mget (maps_of st) id).
+  { intros id Hid. rewrite Hml. unfold mget. apply app_nth1; auto. }
+  assert (Okm : forall id, id < length (maps_of st) -> amap_ok n (mget (maps_of st) id)).
+  { intros id _. apply mget_ok; auto. }
+  pose proof (exec_ok grow (heap_of st) pl o1 H1 Hpl) as EX.
+  unfold added, step. rewrite X, G0. fold pl. fold g0.
+  destruct (exec grow true (heap_of st) pl o1) as [h' m|h' ms|h'|c]; cbn [shr fst snd heap_of maps_of pool].
+  - destruct EX as (_ & Lh & _).
+    destruct (commit (maps_of st) o1 g0 m) as [A' g] eqn:EA.
+    destruct (commit (maps_of s2) o1 g0 (shm e n m)) as [B' g'] eqn:EB. cbn [fst snd heap_of maps_of pool].
+    rewrite !skipn_app, !skipn_all, !Nat.sub_diag. cbn [skipn app map]. f_equal. f_equal.
+    destruct (commit_pair e n ltac:(unfold n; lia) _ _ _ _ _ (length (maps_of st)) _ _ _ _ EA EB H0 (le_n _)
+                ltac:(rewrite Hml, app_length; lia) Gid Agree Okm) as (_ & _ & O).
+    specialize (O h' [] [] Lh). rewrite !app_nil_r in O. exact O.
+  - destruct EX as (_ & Lh & _).
+    destruct (commit_all (maps_of st) o1 g0 ms) as [A' gs] eqn:EA.
+    destruct (commit_all (maps_of s2) o1 g0 (map (shm e n) ms)) as [B' gs'] eqn:EB. cbn [fst snd heap_of maps_of pool].
+    rewrite !skipn_app, !skipn_all, !Nat.sub_diag. cbn [skipn app]. f_equal.
+    destruct (commit_all_pair e n ltac:(unfold n; lia) _ _ (length (maps_of st)) _ _ _ _ _ _ _ EA EB H0 (le_n _)
+                ltac:(rewrite Hml, app_length; lia) Gid Agree Okm) as (_ & _ & O).
+    specialize (O h' [] [] Lh). rewrite !app_nil_r in O. exact O.
+  - rewrite !skipn_all. reflexivity.
+  - rewrite !skipn_all. reflexivity.
+Qed.
+
+End Commute.
